@@ -153,7 +153,9 @@ Definition canon (bits : Z) : Z := if push_is_value bits then bits else 0.
 
 (* ---- the `raw_strains` variant: a plain Vec<f64> -------------------------------- *)
 Definition raw := list Z.
-Definition raw_push (r : raw) (bits : Z) : raw := r ++ [bits].
+(* after the fix b2a163a the raw variant stores what the compact one stands for: positive words
+   as they are, everything else as +0.0 *)
+Definition raw_push (r : raw) (bits : Z) : raw := r ++ [canon bits].
 (* `a > 0.0` on the float: false for NaN, zeros, negatives *)
 Definition gt_zero_bits (w : Z) : bool := (0 <? w) && (w <=? POS_INF_BITS).
 Definition raw_retain_non_zero (r : raw) : raw := filter gt_zero_bits r.
